@@ -85,8 +85,7 @@ contract(f'{TC}::_WindSock.vector_for_range', props=('C12',),
          params=dict(self=SOCK, next_range=Real(lo=0, hi=9e7)),
          requires=[(l, s) for l, s in SOCK_INV] + [
              ('winds-sorted-by-until-distance', SORTED_W),
-             ('not-ahead-of-the-projectile', f'forall(0, self.current, lambda i: {UNTIL.format(k="i")} <= next_range)'),
-             ('until-distances-below-the-sentinel', f'forall(0, len({W}), lambda i: {UNTIL.format(k="i")} < Wind.MAX_DISTANCE_FEET)')],
+             ('not-ahead-of-the-projectile', f'forall(0, self.current, lambda i: {UNTIL.format(k="i")} <= next_range)')],
          loops={0: LoopContract(invariants=SOCK_INV + [
              ('not-ahead-of-the-projectile', f'forall(0, self.current, lambda i: {UNTIL.format(k="i")} <= next_range)')],
              variant=f'len({W}) - self.current')},
@@ -102,7 +101,7 @@ contract(f'{TC}::_WindSock.vector_for_range', props=('C12',),
 
 # primary contract of Shot.winds (used at call sites): any number of winds, result ordered by until-distance
 WINDF = Obj(C.Wind, velocity=QuantityF(U.Velocity, unit=Unit.FPS), direction_from=QuantityF(U.Angular, unit=Unit.Radian),
-            until_distance=QuantityF(U.Distance, unit=Unit.Foot, value=Real(lo=0, hi=9e8)), MAX_DISTANCE_FEET=Const(1e8))
+            until_distance=QuantityF(U.Distance, unit=Unit.Foot, value=Real(lo=0)), MAX_DISTANCE_FEET=Const(1e8))
 contract(f'{CF}::Shot.winds', which='getter', props=('C12', 'C10'),
          params=dict(self=Obj(C.Shot, _winds=ListOf(WINDF, frozen=True))),
          ensures=[('same-number-of-winds', 'len(result) == len(self._winds)'),
